@@ -531,12 +531,15 @@ class C19(Check):
         self.sweep_points = 0
         chunks = [None, 512, 7] if tier == "quick" else [None, 4096, 512, 64,
                                                           7, 1]
+        every_byte_for = ("set:current", )  # chunk 1: every partial length
         tiny_for = ("first_init:empty", "upgrade", "set:current",
                     "merge_hard:current", "reset_subset:outdated")
         for name, init, prog in self.sweep_workloads():
             for chunk in chunks:
                 tiny = chunk is not None and chunk < 64
-                if tiny and tier == "quick" and name not in tiny_for:
+                if tiny and name not in tiny_for:
+                    continue
+                if chunk == 1 and name not in every_byte_for:
                     continue
                 base = {"kind": "sweep", "workload": name, "seed": 7,
                         "init": init, "config": "sweep", "chunk": chunk,
@@ -552,6 +555,8 @@ class C19(Check):
                     if tiny and op == "write":
                         # every partial length is already a kill point
                         kinds = ["kill"] if j % 8 else ["kill", "int"]
+                        if chunk == 1 and j % 3:
+                            continue
                     for kind in kinds:
                         c = copy.deepcopy(base)
                         f = {"kind": kind, "step": step}
@@ -561,6 +566,37 @@ class C19(Check):
                         c["sweep_point"] = [j, n, op, path]
                         cases.append(c)
                         self.sweep_points += 1
+        # crash-point sweep under concurrency: process A is killed at each of
+        # its yield points while a second, starting process B runs as one
+        # block inserted at each position of A's execution
+        self.sweep2_points = 0
+        for name, init, prog in self.sweep_workloads():
+            if name not in ("first_init:empty", "upgrade", "set:current",
+                            "merge_hard:current", "reset_subset:outdated",
+                            "reset_all:current"):
+                continue
+            base = {"kind": "sweep2", "workload": name, "seed": 11,
+                    "init": init, "config": "sweep", "chunk": None,
+                    "epochs": [{"lanes": [prog, [{"cmd": "start"}]],
+                                "faults": []}],
+                    "policy": ["random"], "sched_seed": 0}
+            solo = copy.deepcopy(base)
+            solo["epochs"][0]["lanes"] = [prog]
+            sim, _, _ = self._simulate(solo)
+            nA = len([e for e in sim.oplog if e[1] == 0])
+            sa = 1 if tier != "quick" else 3
+            sj = 1 if tier != "quick" else 2
+            for a_steps in range(0, nA + 1, sa):
+                for j in range(1, nA + 4, sj):
+                    for kind in (("kill", "int") if tier != "quick" else
+                                 ("kill", )):
+                        c = copy.deepcopy(base)
+                        c["sched"] = [0] * a_steps + [1] * 400 + [0] * 400
+                        c["epochs"][0]["faults"] = [
+                            {"kind": kind, "when": {"lane": 0, "n": j}}]
+                        c["sweep_point"] = [a_steps, j, kind, name]
+                        cases.append(c)
+                        self.sweep2_points += 1
         # all schedules of two racing starts with <= 2 preemptions
         dflt, version = self.dflt, self.version
         inits = [w[1] for w in self.sweep_workloads()
@@ -699,6 +735,8 @@ class C19(Check):
                 "per workload x initial state x chunk size; complete for "
                 "these workloads",
                 "cases": getattr(self, "sweep_points", None),
+                "cases_under_concurrency": getattr(self, "sweep2_points",
+                                                   None),
                 "workloads": [w[0] for w in self.sweep_workloads()],
             },
         }
